@@ -217,7 +217,7 @@ def run(tier: str, seed: int, t0: float) -> int:
     run_batches(jobs, stats, out, API)
     for key, least in (("verdict:ok", 2000),):
         if stats.counts.get(key, 0) < least:
-            raise core.MachineryError(f"vacuity gate: {key}={stats.counts.get(key, 0)} < {least}")
+            core.vacuity(out, f"vacuity gate: {key}={stats.counts.get(key, 0)} < {least}")
     return core.finish("C02", tier, seed, stats, out, t0,
                        rule="(document, range) for Node.slice/Fragment.cut and (document, range, slice) for Node.replace; documents: all "
                             "TLC-generated valid documents within shape bounds + seeded random documents of the bundled schemas/variants; "
